@@ -121,6 +121,12 @@ def run(ctx, chk, tier):
                 else:
                     casts = [a for a in atoms_of(tab[name]) if isinstance(a, App) and a.fn == "fresh" and a.kwd("dtype") in (Const("other"), Const("int")) and value_root(a.args[0]) == T]
                     shifted = [a for a in atoms_of(tab[name]) if isinstance(a, App) and a.fn in ("count_lt", "count_le") and len(a.args) == 2 and _shifted_threshold(a.args[1])]
+                    special = [a for a in atoms_of(tab[name]) if isinstance(a, App) and a.fn in ("isinf", "isposinf", "isneginf", "isfinite") and any(x == T for x in atoms_of(a))]
+                    if special:
+                        chk.violation("R01.1", CMQ, inst + ":threshold-special-case", "the cell is computed differently where %s: %s" % (show(special[0], 60), show(tab[name], 200)),
+                                      "one counting rule at every threshold: scores by the comparison with the threshold (which already handles +-inf), declared easy samples always in TP / TN",
+                                      ctx.where(CMQ))
+                        continue
                     if shifted and not casts:
                         chk.violation("R01.1", CMQ, inst + ":threshold-shifted", "scores are counted against a moved threshold: %s" % show(shifted[0].args[1], 160),
                                       "the threshold exactly as given (a score one ulp from the threshold is in the quantifier and lies on a definite side of it)", ctx.where(CMQ))
